@@ -531,3 +531,21 @@ def r15e(R):
                 isinstance(n, ast.GeneratorExp) and not n.generators[0].ifs
                 for n in walk_own(rm.node))
     R.check(rm, 'every cell converted', every, 'some cells are not converted')
+    # the converter must see the staged values, not a sanitised view of them
+    cmx = A.cls(MATRIX, 'ColorMatrix')
+    std = cmx.methods['_standardize_raw']
+    bad = None
+    src = None
+    for n in walk_own(rm.node):
+        if isinstance(n, ast.GeneratorExp):
+            it = n.generators[0].iter
+            src = norm(it)
+            if isinstance(it, ast.Call) and isinstance(it.func, ast.Attribute):
+                m = cmx.methods.get(it.func.attr)
+                if m is not None and std in A.rs.reachable([m]):
+                    bad = it.func.attr
+    R.check(rm, 'cells converted from %s' % src, src is not None and bad is None,
+            'the cells are clamped and rounded (%s -> _standardize_raw) as if '
+            'they were raw *before* the conversion from logical/rgb units: a '
+            'staged `brightness 33.3` is sent as 33 percent, a negative hue is '
+            'clamped instead of wrapped - not what a plain set transmits' % bad)
